@@ -63,6 +63,18 @@ ReplaceFrom(s, old, new, i) ==
     ELSE <<s[i]>> \o ReplaceFrom(s, old, new, i + 1)
 Replace(s, old, new) == ReplaceFrom(s, old, new, 1)
 
+\* str.splitlines(): '\n', '\r' and '\r\n' are the newlines; the empty string has no lines and a final newline does not open
+\* another line (str.yml; test cases/common/35 string operations)
+RECURSIVE TextLinesFrom(_, _, _)
+TextLinesFrom(s, i, cur) ==
+    IF i > Len(s) THEN (IF cur = <<>> THEN <<>> ELSE <<cur>>)
+    ELSE IF s[i] = 13 /\ i + 1 <= Len(s) /\ s[i + 1] = 10 THEN <<cur>> \o TextLinesFrom(s, i + 2, <<>>)
+    ELSE IF s[i] \in {10, 13} THEN <<cur>> \o TextLinesFrom(s, i + 1, <<>>)
+    ELSE TextLinesFrom(s, i + 1, Append(cur, s[i]))
+TextLines(s) == TextLinesFrom(s, 1, <<>>)
+\* other characters that some text tools treat as line boundaries: the reference names only the three above
+OtherLineBreaks == {11, 12, 28, 29, 30, 133, 8232, 8233}
+
 WsChars == {32, 10, 9, 13, 11, 12}
 RECURSIVE LStrip(_, _), RStrip(_, _)
 LStrip(s, set) == IF s # <<>> /\ s[1] \in set THEN LStrip(Tail(s), set) ELSE s
@@ -211,6 +223,15 @@ RECURSIVE SortKeys(_)
 SortKeys(keys) ==
     IF keys = {} THEN <<>>
     ELSE LET m == CHOOSE x \in keys : \A y \in keys : x = y \/ SeqLess(x, y) IN <<m>> \o SortKeys(keys \ {m})
+
+\* array.flatten(): "a flattened copy of the array, with all nested arrays removed" - the non-array elements in order
+RECURSIVE FlattenVals(_)
+FlattenVals(es) == IF es = <<>> THEN <<>>
+                   ELSE (IF es[1].k = "arr" THEN FlattenVals(es[1].e) ELSE <<es[1]>>) \o FlattenVals(Tail(es))
+\* array.slice(): the elements at start, start+step, ... below stop (step > 0), resp. from the last element downwards
+RECURSIVE StrideUp(_, _, _, _), StrideDown(_, _, _)
+StrideUp(es, i, stop, st) == IF i >= stop THEN <<>> ELSE <<es[i + 1]>> \o StrideUp(es, i + st, stop, st)
+StrideDown(es, i, st) == IF i < 0 THEN <<>> ELSE <<es[i + 1]>> \o StrideDown(es, i + st, st)
 
 \* textual form used by .format() and f-strings; containers have no documented form
 Stringify(v) ==
